@@ -124,6 +124,8 @@ pub struct CellDesc {
     pub base_subdiv: usize,
     pub envs: Vec<EnvObj>,
     pub safety: SafetyDesc,
+    /// outermost parallelogram coupling (driven, coupled, scaling): inner[coupled] = q[coupled] - scaling * q[driven]
+    pub para: Option<(usize, usize, f64)>,
 }
 
 impl CellDesc {
@@ -138,7 +140,17 @@ impl CellDesc {
             base_subdiv: 1,
             envs: vec![],
             safety: SafetyDesc::touch(0),
+            para: None,
         }
+    }
+
+    /// joint vector of the wrapped serial robot
+    pub fn inner_joints(&self, q: &Joints) -> Joints {
+        let mut j = *q;
+        if let Some((d, c, s)) = self.para {
+            j[c] -= s * q[d];
+        }
+        j
     }
 
     pub fn kinematics(&self) -> Arc<dyn Kinematics> {
@@ -147,9 +159,13 @@ impl CellDesc {
             Some(b) => Arc::new(Base { robot: Arc::new(core), base: to_na(b) }),
             None => Arc::new(core),
         };
-        match &self.tool {
+        let tooled: Arc<dyn Kinematics> = match &self.tool {
             Some(t) => Arc::new(Tool { robot: based, tool: to_na(t) }),
             None => based,
+        };
+        match self.para {
+            Some((driven, coupled, scaling)) => Arc::new(rs_opw_kinematics::parallelogram::Parallelogram { robot: tooled, scaling, driven, coupled }),
+            None => tooled,
         }
     }
 
@@ -174,7 +190,7 @@ impl CellDesc {
 
     /// Reference link poses in the world.
     pub fn link_poses(&self, q: &Joints) -> [Iso; 6] {
-        let l = fkref::links(&self.params, q);
+        let l = fkref::links(&self.params, &self.inner_joints(q));
         match &self.base {
             Some(b) => l.map(|x| b.mul(&x)),
             None => l,
@@ -230,6 +246,7 @@ impl CellDesc {
             "subdiv": self.subdiv.to_vec(), "tool_subdiv": self.tool_subdiv, "base_subdiv": self.base_subdiv,
             "envs": self.envs.iter().map(|e| json!({"lo": e.lo.to_vec(), "hi": e.hi.to_vec(), "subdiv": e.subdiv, "pose": iso_json(&e.pose)})).collect::<Vec<_>>(),
             "safety": self.safety.json(),
+            "para": self.para.map(|(d, c, s)| json!([d, c, s])),
         })
     }
 
@@ -257,6 +274,7 @@ impl CellDesc {
                 .map(|e| EnvObj { lo: f3(&e["lo"]), hi: f3(&e["hi"]), subdiv: e["subdiv"].as_u64().unwrap() as usize, pose: iso_from_json(&e["pose"]) })
                 .collect(),
             safety: SafetyDesc::from_json(&v["safety"]),
+            para: v["para"].as_array().map(|a| (a[0].as_u64().unwrap() as usize, a[1].as_u64().unwrap() as usize, a[2].as_f64().unwrap())),
         }
     }
 }
